@@ -115,6 +115,23 @@ func oneConn(w *mon.W, c *mon.Case, get func(cfg) *engine, _ bool) {
 		}
 		return rs
 	}
+	// streaming: some handlers consume only a prefix of their body (or nothing); hertz
+	// must drop the rest and still frame the following requests correctly
+	limits := make([]int, nreq)
+	partial := false
+	for i, a := range reqs {
+		limits[i] = -1
+		if cf.stream && len(a.Body) > 0 && r.Chance(4) {
+			limits[i] = r.Intn(len(a.Body) + 1)
+			partial = true
+		}
+	}
+	en.obs.ReadLimit = func(v int) int {
+		if v < len(limits) {
+			return limits[v]
+		}
+		return -1
+	}
 	en.obs.Reset()
 	sc := sconn.New(frags, sconn.EOF)
 	c.Detail = func() interface{} {
@@ -122,7 +139,7 @@ func oneConn(w *mon.W, c *mon.Case, get func(cfg) *engine, _ bool) {
 		for _, a := range reqs {
 			ds = append(ds, a.String())
 		}
-		return map[string]interface{}{"config": fmt.Sprintf("%+v", cf), "buf": bufSize, "policy": policy, "frag_sizes": wire.FragSizes(frags), "read_size": rs, "var_read_size": varRS, "requests": ds, "stream_len": len(stream)}
+		return map[string]interface{}{"config": fmt.Sprintf("%+v", cf), "buf": bufSize, "policy": policy, "frag_sizes": wire.FragSizes(frags), "read_size": rs, "var_read_size": varRS, "requests": ds, "stream_len": len(stream), "handler_read_limits": limits}
 	}
 	res := rig.Serve(en.e, sc, bufSize, cf.idle0, 15*time.Second)
 	w.Count("connections", 1)
@@ -130,6 +147,9 @@ func oneConn(w *mon.W, c *mon.Case, get func(cfg) *engine, _ bool) {
 	w.Count("policy_"+policy, 1)
 	if cf.stream {
 		w.Count("conns_streaming", 1)
+	}
+	if partial {
+		w.Count("conns_with_partially_read_bodies", 1)
 	}
 	if res.Hang {
 		c.Violate("hang", "Serve did not finish although the scripted input is finite and EOF-terminated\n%s", trunc(res.Stack, 3000))
@@ -167,7 +187,7 @@ func oneConn(w *mon.W, c *mon.Case, get func(cfg) *engine, _ bool) {
 		return
 	}
 	for i, a := range reqs {
-		if msg := compareView(views[i], a, !cf.noNorm); msg != "" {
+		if msg := compareView(views[i], a, !cf.noNorm, limits[i]); msg != "" {
 			c.Violate("handler-view", "request %d of %d (%s): %s", i, nreq, a.String(), msg)
 			return
 		}
@@ -251,7 +271,7 @@ func viewList(vs []*rig.View) string {
 	return strings.Join(s, " | ")
 }
 
-func compareView(v *rig.View, a *wire.AReq, ordered bool) string {
+func compareView(v *rig.View, a *wire.AReq, ordered bool, limit int) string {
 	if v.Method != a.Method {
 		return fmt.Sprintf("method %q want %q", v.Method, a.Method)
 	}
@@ -267,6 +287,9 @@ func compareView(v *rig.View, a *wire.AReq, ordered bool) string {
 	want := a.Body
 	if a.Framing == "none" {
 		want = nil
+	}
+	if limit >= 0 && limit < len(want) {
+		want = want[:limit] // the handler stopped after limit bytes
 	}
 	if !bytes.Equal(v.Body, want) {
 		d := 0
@@ -296,7 +319,10 @@ func compareView(v *rig.View, a *wire.AReq, ordered bool) string {
 	if v.ConnClose != wantClose {
 		return fmt.Sprintf("ConnectionClose() %v want %v", v.ConnClose, wantClose)
 	}
-	// trailers
+	// trailers (only delivered once the whole body has been read)
+	if limit >= 0 {
+		return "" // a handler that stops after exactly len(body) bytes has not seen EOF yet
+	}
 	wt := map[string][]string{}
 	for _, t := range a.Trailers {
 		wt[wire.Canon(t.K)] = append(wt[wire.Canon(t.K)], wire.NormWS(wire.Unfold(t.V)))
